@@ -83,6 +83,31 @@ impl Env {
     }
 }
 
+/// What the chip is programmed with at the moment a transmission or reception starts (decoded from the
+/// commands / registers the driver wrote; used by the full-stack configuration of the MAC world).
+#[derive(Clone, Copy, Debug, PartialEq, Eq)]
+pub struct ChipRf {
+    pub freq_hz: u32,
+    pub sf: u8,
+    pub bw_khz: u16,
+    /// coding rate denominator (5 = 4/5)
+    pub cr: u8,
+    pub iq_inverted: bool,
+    pub crc_on: bool,
+    pub preamble: u16,
+    /// conducted output power selected by the PA settings, when the combination is one the datasheet tabulates
+    pub power_dbm: Option<i16>,
+}
+
+impl ChipRf {
+    pub fn short(&self) -> String {
+        format!("{}Hz SF{}/BW{} CR4/{}{}", self.freq_hz, self.sf, self.bw_khz, self.cr, match self.power_dbm {
+            Some(p) => format!(" {p}dBm"),
+            None => String::new(),
+        })
+    }
+}
+
 pub enum Chip {
     C126(Box<Chip126x>),
     C127(Box<Chip127x>),
